@@ -14,6 +14,8 @@ type VerifEvent struct{}
 
 func verifEv(*Operation, VerifEvent) {}
 
+func verifGate(*Operation, string) {}
+
 func verifAddNode(types.AddrMaybeId, string, *Operation) (_ VerifEvent) { return }
 func verifStartQuery(types.AddrMaybeId, *Operation) (_ VerifEvent)      { return }
 func verifQueryDone(types.AddrMaybeId, *Operation) (_ VerifEvent)       { return }
